@@ -166,3 +166,39 @@ theorem refsOf_v2 {V : Type} (s : Sch V) (h : v2Refs s = true) : ∀ k ∈ refsO
     · exact ihr h.2 k hk
 
 end KinModel.Conv
+
+namespace KinModel.Conv
+
+/-! ### parameter records -/
+
+theorem sc_param_toV3 {V : Type} (r : Rec V) :
+    normRec constraintFields (conv toV3SchemaTable (conv toV3ParamTable r)) =
+    normRec constraintFields (normRec paramConstraintFields r) := by
+  rw [normRec_eq_conv paramConstraintFields]
+  exact normRec_convs_eq constraintFields [toV3ParamTable, toV3SchemaTable] [idTable paramConstraintFields] r
+    (by decide) (by decide) (by decide)
+
+theorem sc_param_roundtrip {V : Type} (r : Rec V) :
+    normRec constraintFields (normRec paramConstraintFields
+      (conv fromV3ParamTable (conv fromV3SchemaTable (conv toV3SchemaTable (conv toV3ParamTable r))))) =
+    normRec constraintFields (normRec paramConstraintFields r) := by
+  rw [normRec_eq_conv paramConstraintFields, normRec_eq_conv paramConstraintFields]
+  exact normRec_convs_eq constraintFields
+    [toV3ParamTable, toV3SchemaTable, fromV3SchemaTable, fromV3ParamTable, idTable paramConstraintFields]
+    [idTable paramConstraintFields] r (by decide) (by decide) (by decide)
+
+theorem sc_form_toV3 {V : Type} (r : Rec V) :
+    normRec constraintFields (conv toV3FormTable r) =
+    normRec constraintFields (normRec paramConstraintFields r) := by
+  rw [normRec_eq_conv paramConstraintFields]
+  exact normRec_convs_eq constraintFields [toV3FormTable] [idTable paramConstraintFields] r
+    (by decide) (by decide) (by decide)
+
+theorem sc_form_roundtrip {V : Type} (r : Rec V) :
+    normRec constraintFields (normRec paramConstraintFields (conv fromV3FormTable (conv toV3FormTable r))) =
+    normRec constraintFields (normRec paramConstraintFields r) := by
+  rw [normRec_eq_conv paramConstraintFields, normRec_eq_conv paramConstraintFields]
+  exact normRec_convs_eq constraintFields [toV3FormTable, fromV3FormTable, idTable paramConstraintFields]
+    [idTable paramConstraintFields] r (by decide) (by decide) (by decide)
+
+end KinModel.Conv
